@@ -156,5 +156,19 @@ func runValDecision(c *core.Ctx) {
 		},
 		valueOf: func(info *types.Info, n ast.Node) ast.Expr { return n.(*ast.CallExpr).Args[1] },
 		ints:    map[string]string{"idxVal": ""}, bools: []string{"ok"}, refInt: func(a dtAtoms) int64 { return a.I("idxVal") + 1 }})
+	rows = append(rows,
+		dtRow{fn: "VClock.Inc", key: "absent-reads-zero", why: "a component that is absent starts from 0 - and only then", find: func(info *types.Info, n ast.Node) bool {
+			as, ok := n.(*ast.AssignStmt)
+			return ok && len(as.Lhs) == 1 && len(as.Rhs) == 1 && as.Tok == token.ASSIGN && an.ObjOf(info, as.Lhs[0]) != nil && an.ObjOf(info, as.Lhs[0]).Name() == "idxVal"
+		}, bools: []string{"ok"}, ref: func(a dtAtoms) bool { return !a.B("ok") }},
+		dtRow{fn: ".WrapCausal", key: "keeps-the-clock-the-value-already-carries", why: "wrapping a value that already carries a clock merges the two: what the value witnessed is not forgotten", find: func(info *types.Info, n ast.Node) bool {
+			call, ok := n.(*ast.CallExpr)
+			return ok && an.IsMethodNamed(an.CalleeFunc(info, call), an.PkgTLA, "VClock", "Merge")
+		}, bools: []string{"vClocksEnabled", "existingClock==nil"}, ref: func(a dtAtoms) bool { return a.B("vClocksEnabled") && !a.B("existingClock==nil") }},
+		dtRow{fn: ".WrapCausal", key: "plain-value-when-clocks-are-off", why: "without tracing values are not wrapped", find: func(info *types.Info, n ast.Node) bool {
+			r, ok := n.(*ast.ReturnStmt)
+			return ok && len(r.Results) == 1 && an.ObjOf(info, r.Results[0]) != nil && an.ObjOf(info, r.Results[0]).Name() == "value"
+		}, bools: []string{"vClocksEnabled"}, existsOthers: true, ref: func(a dtAtoms) bool { return !a.B("vClocksEnabled") }},
+	)
 	runDecisionRows(c, e, an.PkgTLA, "", rows)
 }
